@@ -137,7 +137,7 @@ def evaluate(expr, env):
 
 def main():
     repo, out = sys.argv[1], sys.argv[2]
-    lines = ["(* GENERATED by tools/consts.py from the Rust sources under %s - do not edit. *)" % repo,
+    lines = ["(* GENERATED by tools/consts.py from the Rust sources of the repository under check - do not edit. *)",
              "From Coq Require Import NArith.", "Open Scope N_scope.", ""]
     envs = {}
     failed = False
